@@ -27,8 +27,9 @@
 (*    defined (the driver compares such groups as multisets; LIMIT/OFFSET are dropped by Normalize when they  *)
 (*    could cut through such a group).                                                                        *)
 (*  - count/sum/mean without GROUP BY time carry the lower time bound (the epoch without one); min/max/first/ *)
-(*    last carry the selected point's time (min/max: earliest among equal values; first/last: greatest value   *)
-(*    among equal times); under GROUP BY time every row carries the window start.                             *)
+(*    last carry the selected point's time (min/max: earliest among equal values); under GROUP BY time every   *)
+(*    row carries the window start.  Which of two points of different series with the same earliest/latest     *)
+(*    timestamp first()/last() take is NOT defined: Normalize adds GROUP BY host to such queries.              *)
 (*  - windows are [off + k*w, off + (k+1)*w); the windows output are those that intersect [tlo, thi).         *)
 (*  - fill applies to windows without points of a series that has at least one point in range: null, none     *)
 (*    (row omitted), previous (value of the previous row of the same series IN OUTPUT ORDER, null if none),    *)
@@ -239,8 +240,24 @@ MkQuery(r) ==
       slimit |-> sl,
       soffset |-> IF sl > 0 /\ r[25] % 2 = 0 THEN 1 ELSE 0]
 
-Normalize(d, qq) == IF qq.sel = "raw" /\ (qq.limit > 0 \/ qq.offset > 0) /\ HasTie(d, qq)
-                    THEN [qq EXCEPT !.limit = 0, !.offset = 0] ELSE qq
+\* first()/last() over several series: which of two points of DIFFERENT series at the selected (earliest/latest)
+\* timestamp is taken is not defined by the language (without GROUP BY time the engine takes the first point of an
+\* unordered merge); such a query is only generated with GROUP BY host, where every output series is one stored series
+ExtremeAmbiguous(sel, P) ==
+  P # {} /\ LET t == IF sel = "first" THEN MinOf({T(p) : p \in P}) ELSE MaxOf({T(p) : p \in P})
+            IN Cardinality({V(p) : p \in {x \in P : T(x) = t}}) > 1
+FLAmbiguous(d, qq) ==
+  \E sel \in {qq.sel, qq.sel2} \cap {"first", "last"} :
+    \E k \in 1..Len(Candidates(d, qq)) :
+       LET P == PointsOf(d, qq, Candidates(d, qq)[k])
+       IN IF qq.w = 0 THEN ExtremeAmbiguous(sel, P)
+          ELSE \E j \in 1..Len(Windows(qq)) :
+                  ExtremeAmbiguous(sel, {p \in P : T(p) >= Windows(qq)[j] /\ T(p) < Windows(qq)[j] + qq.w})
+
+Normalize(d, q0) ==
+  LET qq == IF ~q0.gtag /\ FLAmbiguous(d, q0) THEN [q0 EXCEPT !.gtag = TRUE] ELSE q0
+  IN IF qq.sel = "raw" /\ (qq.limit > 0 \/ qq.offset > 0) /\ HasTie(d, qq)
+     THEN [qq EXCEPT !.limit = 0, !.offset = 0] ELSE qq
 
 FocusFill(r, qq) ==
   LET wnd == Pick1(r, 4, <<2, 3, 4, 5, 2, 3>>)
